@@ -1,6 +1,7 @@
 //! Runtime-monitoring harness for jxo-me/anytls-rs (see /verif/DESIGN.md).
 pub mod engine;
 pub mod mempipe;
+pub mod netkit;
 pub mod prng;
 pub mod props;
 pub mod refcodec;
